@@ -250,6 +250,9 @@ def make_cells(tier):
         for (b, a, q, kind) in REGIME:
             k2 = "ss_u32" if kind == "ss_u16" else ("ss_u16" if q + 1 <= 65535 else kind)
             cells.append(dict(n=n, m=m, b=b, a=a, q=q, kind=k2, rep=rep, trials=trials_for(tier, n, m) // 2))
+    # 32-bit registers whose values exceed the 16-bit range (fine base: registers around ln(a n)/ln(b) > 65535)
+    for (n, m) in ((100000, 64), (100000, 256)) + (((1000000, 256),) if tier != "quick" else ()):
+        cells.append(dict(n=n, m=m, b=1.0002, a=20.0, q=2 ** 24 - 2, kind="ss_u32", rep=1, trials=trials_for(tier, n, m) // 4))
     for i, c in enumerate(cells):
         c["id"] = i
     return cells
